@@ -102,12 +102,13 @@ func propSpecs() map[string]*PropSpec {
 			Harnesses: []HSpec{
 				{Name: "H07", Quick: P{"a": 2, "k": 2, "m": 2, "L": 3}, Thorough: P{"a": 2, "k": 3, "m": 2, "L": 3}, Reach: []string{"computed", "overlapping-required-sets", "impossible"}},
 				{Name: "H07", Label: "long", Quick: P{"a": 2, "k": 2, "m": 2, "big": 1}, Thorough: P{"a": 2, "k": 3, "m": 2, "big": 1}, Reach: []string{"computed", "overlapping-required-sets"}},
+				{Name: "H07", Label: "word-size-boundaries", Quick: P{"a": 2, "k": 2, "m": 2, "big": 2}, Thorough: P{"a": 2, "k": 3, "m": 2, "big": 2}, Reach: []string{"computed", "overlapping-required-sets"}},
 				{Name: "H07", Label: "class-flags", Quick: P{"a": 0, "k": 2, "m": 1, "L": 2, "flags": 4}, Thorough: P{"a": 1, "k": 2, "m": 1, "L": 3, "flags": 4}, Reach: []string{"computed", "overlapping-required-sets", "premise-excluded"}},
 				{Name: "H07", Label: "after-sibling-call", Quick: P{"a": 1, "k": 2, "m": 2, "L": 2, "primes": 5}, Thorough: P{"a": 2, "k": 2, "m": 2, "L": 3, "primes": 5}, Reach: []string{"computed", "primed"}},
 				{Name: "H07", Label: "four-sets", ThoroughOnly: true, Thorough: P{"a": 1, "k": 4, "m": 1, "L": 3}, Reach: []string{"computed", "overlapping-required-sets"}},
 			},
 			Bounds: map[string]string{
-				"H07":     "allowed string of 0..a characters and 0..k required sets of 1..m characters each, every character a symbolic printable-ASCII byte, so every overlap pattern (set partition) of the characters arises as a solver-feasible path; Length 1..L, and 1000 and 5000 in the `long` run; class flags none / Require Digits / Allow Digits Exclude Ambiguous / Require Symbols Allow Digits in the `class-flags` run; quick a=2,k=2,m=2,L=3; thorough a=2,k=3,m=2 and k=4 singletons",
+				"H07":     "allowed string of 0..a characters and 0..k required sets of 1..m characters each, every character a symbolic printable-ASCII byte, so every overlap pattern (set partition) of the characters arises as a solver-feasible path; Length 1..L, 1000 and 5000 in the `long` run, 16, 32, 63, 64 and 65 in the `word-size-boundaries` run; class flags none / Require Digits / Allow Digits Exclude Ambiguous / Require Symbols Allow Digits in the `class-flags` run; quick a=2,k=2,m=2,L=3; thorough a=2,k=3,m=2 and k=4 singletons",
 				"outside": "more than 4 required sets (the property's upper end of 8 is outside the executed bound), more than 8 distinct custom characters, non-ASCII custom characters (set operations only compare characters for equality); log2 is the native math.Log2 (compared numerically to 8 float32 ulps against an independent route, not proved)",
 			},
 			Assume: commonAssume,
@@ -239,11 +240,12 @@ func propSpecs() map[string]*PropSpec {
 			},
 			Bounds: map[string]string{
 				"HO17c":   "opgen characters with --length 1, 8 or absent (20); --allow/--require/--exclude each absent or one of the class lists (digits; uppercase,lowercase; a list with blanks after the commas; a list with an unknown word; three classes with blanks; ambiguous; a list with blanks around the commas); --entropy on/off; main() is executed from its SSA with os.Args set, package flag modelled by its documented contract; the password printed is compared with the password of the documented library recipe on the same (symbolic) random draws; in the engine MaxTrials is 2",
-				"HO17w":   "opgen words with --size 1, 3 or absent (4); --file with three small files (one with a duplicate word) or --list absent/words/syllables/unknown; every separator class and an unknown one; every capitalisation scheme and an unknown one; --entropy on/off; generation from the 18 328-word shipped lists with symbolic draws is skipped in the engine (entropy only)",
+				"HO17w":   "opgen words with --size 1, 3 or absent (4); --file with three small files (one with a duplicate word) and a 12 000-word file kept on one line of more than 64 KiB or --list absent/words/syllables/unknown; every separator class and an unknown one; every capitalisation scheme and an unknown one; --entropy on/off; generation from the 18 328-word shipped lists with symbolic draws is skipped in the engine (entropy only)",
 				"HO17u":   "missing subcommand, unknown subcommand, unknown flag, misspelt flag, malformed integer, flag without its value",
 				"outside": "the text-level behaviour of package flag is a model written from its documentation (flag.go is not executed); the process boundary (exit status, stdout/stderr) is the engine's event log, confirmed on the built binary only for counterexamples; other flag spellings and values",
 			},
 			Assume: append([]string{"package flag (NewFlagSet/Int/String/Bool/Parse with ExitOnError), io/ioutil.ReadFile, os.Exit and log.Fatalln are modelled by their documented contracts"}, commonAssume...),
+			Extra:  c17NativeSweep,
 		},
 		{
 			ID: "C11", Sub: "spg", Level: "model_checking",
